@@ -5,6 +5,7 @@ import (
 	"go/constant"
 	"go/token"
 	"math/big"
+	"strings"
 
 	"golang.org/x/tools/go/ssa"
 )
@@ -43,6 +44,7 @@ func (c rclass) rng(l lin) (lo, hi *big.Int) {
 }
 
 type rlinResult struct {
+	splitAt  *big.Int // when a comparison is not uniform on the class: first q at which its truth value changes
 	ret      *lin
 	panics   bool
 	err      string
@@ -190,7 +192,41 @@ func rlinEval(fn *ssa.Function, c rclass) rlinResult {
 						}
 					}
 					if !decided {
-						res.err = fmt.Sprintf("comparison %s not uniform on class %s", in.String(), c.name)
+						// a linear form changes sign at most once: find the first q where the truth value
+						// differs from the one at qmin and let the caller split the class there
+						truthAt := func(q *big.Int) bool {
+							v := c.at(d, q)
+							switch in.Op {
+							case token.EQL:
+								return v.Sign() == 0
+							case token.NEQ:
+								return v.Sign() != 0
+							case token.LSS:
+								return v.Sign() < 0
+							case token.GEQ:
+								return v.Sign() >= 0
+							case token.LEQ:
+								return v.Sign() <= 0
+							default:
+								return v.Sign() > 0
+							}
+						}
+						if in.Op == token.EQL || in.Op == token.NEQ {
+							res.err = fmt.Sprintf("equality %s holds at an isolated point of class %s", in.String(), c.name)
+							return res
+						}
+						t0 := truthAt(c.qmin)
+						lo, hi := new(big.Int).Set(c.qmin), new(big.Int).Set(c.qmax)
+						for new(big.Int).Sub(hi, lo).Cmp(big.NewInt(1)) > 0 {
+							mid := new(big.Int).Add(lo, hi)
+							mid.Rsh(mid, 1)
+							if truthAt(mid) == t0 {
+								lo = mid
+							} else {
+								hi = mid
+							}
+						}
+						res.splitAt = hi
 						return res
 					}
 					benv[in] = val
@@ -256,6 +292,26 @@ func rlinEval(fn *ssa.Function, c rclass) rlinResult {
 	return res
 }
 
+// rlinEvalSplit evaluates fn on class c, splitting the q-range wherever a
+// comparison is not uniform; it returns the pieces with their closed forms.
+type rlinPiece struct {
+	c   rclass
+	res rlinResult
+}
+
+func rlinEvalSplit(fn *ssa.Function, c rclass, depth int) []rlinPiece {
+	res := rlinEval(fn, c)
+	if res.splitAt == nil || depth > 6 {
+		if res.splitAt != nil {
+			res.err = "too many range splits"
+		}
+		return []rlinPiece{{c, res}}
+	}
+	left := rclass{c.name, c.r, c.qmin, new(big.Int).Sub(res.splitAt, big.NewInt(1))}
+	right := rclass{c.name, c.r, res.splitAt, c.qmax}
+	return append(rlinEvalSplit(fn, left, depth+1), rlinEvalSplit(fn, right, depth+1)...)
+}
+
 func rclasses() []rclass {
 	max := new(big.Int).Sub(two64, big.NewInt(1))
 	var out []rclass
@@ -308,22 +364,33 @@ func runC18(r *Run) {
 			exp  lin
 			got  []*lin
 		}{{"C18.1", maj, expMaj[i], gotMaj}, {"C18.2", min, expMin[i], gotMin}} {
-			res := rlinEval(t.fn, c)
+			pieces := rlinEvalSplit(t.fn, c, 0)
 			con := fmt.Sprintf("%s[%s]", FuncName(t.fn), c.name)
 			pos := w.Pos(t.fn.Pos())
-			switch {
-			case res.err != "":
-				// an operator outside the domain cannot be decided; an
-				// overflow or non-uniform branch is a genuine failure
-				r.Fail(t.rule, con, pos, "RLIN evaluation failed: "+res.err)
-			case res.panics:
-				r.Fail(t.rule, con, pos, "function panics for positive n on this class")
-			case res.ret.a.Cmp(t.exp.a) != 0 || res.ret.b.Cmp(t.exp.b) != 0:
-				r.Fail(t.rule, con, pos, fmt.Sprintf("closed form is %s, required %s for q in [%s,%s]", res.ret, t.exp, c.qmin, c.qmax))
-			default:
-				t.got[i] = res.ret
-				r.Pass(t.rule, con, pos, fmt.Sprintf("closed form %s for q in [%s,%s]; %d SSA steps; largest intermediate %s < 2^64", res.ret, c.qmin, c.qmax, res.steps, res.maxInter))
+			allOK := true
+			var dets []string
+			for _, pc := range pieces {
+				res := pc.res
+				rng := fmt.Sprintf("q in [%s,%s]", pc.c.qmin, pc.c.qmax)
+				switch {
+				case res.err != "":
+					allOK = false
+					dets = append(dets, rng+": RLIN evaluation failed: "+res.err)
+				case res.panics:
+					allOK = false
+					dets = append(dets, rng+": panics for positive n")
+				case res.ret.a.Cmp(t.exp.a) != 0 || res.ret.b.Cmp(t.exp.b) != 0:
+					allOK = false
+					dets = append(dets, fmt.Sprintf("%s: closed form is %s, required %s", rng, res.ret, t.exp))
+				default:
+					dets = append(dets, fmt.Sprintf("%s: closed form %s; %d SSA steps; largest intermediate %s < 2^64", rng, res.ret, res.steps, res.maxInter))
+				}
 			}
+			if allOK {
+				l := t.exp
+				t.got[i] = &l
+			}
+			r.Check(allOK, t.rule, con, pos, strings.Join(dets, " | "))
 		}
 	}
 	// n = 0
